@@ -132,20 +132,39 @@ def main():
         # exploration, under a time limit: when the tree is broken a library call may take arbitrarily long
         limit = int(os.environ.get('VERIF_TIME_LIMIT', 5400 if ctx.thorough else 600))
 
-        def on_alarm(*_a):
-            raise common.StopCheck()
-        signal.signal(signal.SIGALRM, on_alarm)
-        signal.alarm(limit)
+        # a single library call that does not return within the per-call limit is interrupted and counted as a failing
+        # input (a hang refutes whatever the property says about the call's result); C16 measures time itself
+        call_limit = int(os.environ.get('VERIF_CALL_LIMIT', 300 if ctx.thorough else 120))
+        dog = None
+        if pid != 'C16':
+            dog = common.Watchdog(limit, call_limit)
+            dog.start()
+        else:
+            def on_alarm(*_a):
+                raise common.StopCheck()
+            signal.signal(signal.SIGALRM, on_alarm)
+            signal.alarm(limit)
         timed_out = False
         cov = common.ImplCoverage()
         cov.start()
         try:
-            mod.run(ctx)
+            try:
+                mod.run(ctx)
+            except common.CallTimeout as e:
+                # the call was not inside an oracle wrapper (e.g. it was made for the correspondence)
+                rep.violation('failing-input', {'why': str(e), 'note': 'the input is the one being evaluated when the call was interrupted; '
+                                                'replay re-runs the check with the recorded seed'})
+                rep.extra['stopped_early'] = 'a library call did not return'
         except common.StopCheck:
             timed_out = not rep.violations
             rep.extra['stopped_early'] = 'time limit' if timed_out else 'enough failing inputs'
         finally:
-            signal.alarm(0)
+            if dog is not None:
+                dog.stop()
+                if dog.fired:
+                    rep.extra['calls_interrupted'] = dog.fired[:10]
+            else:
+                signal.alarm(0)
             c = cov.stop()
             if c:
                 tot = [sum(v[0] for v in c.values()), sum(v[1] for v in c.values())]
